@@ -18,7 +18,7 @@ Theorem C14_reuse_is_conflict : forall f now s ps ts ref md amd force ik dry,
              /\ tables s' = tables s.
 Proof.
   intros f now s ps ts ref md amd force ik dry Hne Ht Hps Hf Hik.
-  unfold step; simpl. rewrite Hik. destruct ps as [|p ps']; [contradiction|]. rewrite Hf. simpl.
+  unfold step; simpl. rewrite Hik. unfold create_tx. destruct ps as [|p ps']; [contradiction|]. rewrite Hf. simpl.
   unfold commit_transaction.
   assert (E : (negb (ref =? "")%string && ref_taken (s_txs s) ref)%bool = true).
   { rewrite Ht, andb_true_r. apply negb_true_iff. apply String.eqb_neq. exact Hne. }
